@@ -1,7 +1,7 @@
 (** C15 — property theorems only (proved in IO/DddmpProofs.v; model IO/Dddmp.v). *)
 From Coq Require Import List NArith ZArith Bool.
 From OxiVerif Require Import IO.Dddmp IO.DddmpProofs IO.DddmpAsciiProofs.
-From OxiVerif Require Import IO.DddmpFile IO.DddmpFileProofs IO.DddmpFileSafety IO.DddmpFileRoundtrip IO.DddmpFileWhole IO.DddmpFileNoPanic.
+From OxiVerif Require Import IO.DddmpFile IO.DddmpFileProofs IO.DddmpFileSafety IO.DddmpFileRoundtrip IO.DddmpFileWhole IO.DddmpFileNoPanic IO.DddmpFileSem.
 Import ListNotations.
 Open Scope N_scope.
 
@@ -350,6 +350,32 @@ Print Assumptions C15_whole_example.
 Theorem C15_good_name_ascii : forall n, n <> [] -> Forall (fun b => 32 < b /\ b < 127) n -> good_name n.
 Proof. exact good_name_ascii. Qed.
 Print Assumptions C15_good_name_ascii.
+
+(** the manager operations of the importer preserve the meaning: the edge returned by
+    reduce(..).then_insert(..) (reduction rule, unique table, complement-edge normalisation;
+    BDD, BCDD, MTBDD) denotes "if x_level then t else e" *)
+Theorem C15_mk_node_semantics : forall k slm s level t e s' r,
+  k <> KZBDD ->
+  store_wf s -> levels_in slm s -> In level slm ->
+  edge_in s t -> edge_in s e -> level < edge_level s t -> level < edge_level s e ->
+  mk_node k s level t e = (s', r) ->
+  forall env v, denotes s' env r v <-> denotes s' env (if env level then t else e) v.
+Proof. exact mk_node_denotes. Qed.
+Print Assumptions C15_mk_node_semantics.
+
+(** a complemented edge (BCDD: flipped tag) denotes the negation *)
+Theorem C15_neg_semantics : forall s env e v, denotes s env (neg e) v <-> denotes s env e (tneg v).
+Proof. exact denotes_neg. Qed.
+Print Assumptions C15_neg_semantics.
+
+(** BDDFunction::not_edge_owned (complement of the BDD importer) builds the negation *)
+Theorem C15_bdd_not_semantics : forall slm fuel s e s' e',
+  store_wf s -> levels_in slm s -> plain_store s -> edge_in s e -> plain_edge e ->
+  bdd_not s fuel e = Ok (s', e') ->
+  plain_store s' /\ plain_edge e' /\
+  forall env v, denotes s env e v -> denotes s' env e' (tneg v).
+Proof. exact bdd_not_denotes. Qed.
+Print Assumptions C15_bdd_not_semantics.
 
 (* Not proved (checked on every exported file by the correspondence run instead):
    - C15_var_names_unique_partial: pairwise distinct non-empty names are written as
